@@ -97,7 +97,8 @@ class DState:
         raise Unsupported('with_handlers on a state that is already in use')
 
 
-@harness('D4d', targets='kopf._core.engines.daemons._daemon', props=['C09', 'C11', 'C08'],
+@harness('D4d', targets='kopf._core.engines.daemons._daemon', props=['C09', 'C11', 'C08', 'C20', 'C06', 'C13'],
+         prop_clauses={'C20': ['not_started_when_stopped', 'sleeps_wake_on_stop_only', 'no_spin', 'cancellation_propagates'], 'C06': ['not_started_when_stopped'], 'C13': ['not_started_when_stopped', 'sleeps_wake_on_stop_only']},
          clauses=['no_self_overlap', 'not_started_when_stopped', 'finished_not_invoked_again', 'first_run_after_initial_delay',
                   'retry_not_before_delay', 'state_threaded', 'results_then_patch_applied', 'patch_carried_over',
                   'sleeps_wake_on_stop_only', 'no_spin', 'exits_only_when_stopped_or_done', 'cancellation_propagates'],
@@ -108,11 +109,7 @@ class DState:
                   'progression.deliver_results: writes the results of the outcomes into the patch given'],
          assumes=['initial_delay is None, a number, or a callable returning a number (kopf.daemon docs)',
                   'the stop flag is only ever raised, never cleared (aioenums.FlagSetter; D2/D3)'],
-         clause_props={'patch_carried_over': ['C08'], 'results_then_patch_applied': ['C08'],
-                       'retry_not_before_delay': ['C11'], 'finished_not_invoked_again': ['C11', 'C09'],
-                       'state_threaded': ['C11'], 'first_run_after_initial_delay': ['C09'],
-                       'no_self_overlap': ['C09'], 'not_started_when_stopped': ['C09'], 'sleeps_wake_on_stop_only': ['C09', 'C11'],
-                       'no_spin': ['C09'], 'exits_only_when_stopped_or_done': ['C09', 'C11'], 'cancellation_propagates': ['C09']})
+         clause_props={'patch_carried_over': ['C08'], 'results_then_patch_applied': ['C08'], 'retry_not_before_delay': ['C11'], 'finished_not_invoked_again': ['C11', 'C09'], 'state_threaded': ['C11'], 'first_run_after_initial_delay': ['C09'], 'no_self_overlap': ['C09'], 'not_started_when_stopped': ['C09', 'C20', 'C06', 'C13'], 'sleeps_wake_on_stop_only': ['C09', 'C11', 'C20', 'C13'], 'no_spin': ['C09', 'C20'], 'exits_only_when_stopped_or_done': ['C09', 'C11'], 'cancellation_propagates': ['C09', 'C20']})
 def D4d(vc):
     """
     daemons._daemon: ONE arbitrary round of `while not stopper.is_set() and not state.done` (loop contract) from an
@@ -463,7 +460,8 @@ class CtxVar:
         self.vc.emit('var.reset', self.name)
 
 
-@harness('X4', targets='kopf._core.actions.execution.invoke_handler', props=['C02', 'C11', 'C04', 'C09', 'C10', 'C15', 'C17', 'C18'],
+@harness('X4', targets='kopf._core.actions.execution.invoke_handler', props=['C02', 'C11', 'C04', 'C09', 'C10', 'C15', 'C17', 'C18', 'C20', 'C08', 'C14'],
+         prop_clauses={'C20': ['invoked_once_as_given', 'exceptions_propagate_unchanged'], 'C08': ['adjusted_cause_used', 'result_returned'], 'C14': ['invoked_once_as_given']},
          clauses=['adjusted_cause_used', 'context_during_call', 'context_at_extra_exit', 'context_restored', 'invoked_once_as_given',
                   'inside_extra_context', 'result_returned', 'exceptions_propagate_unchanged'],
          canaries=['canary.never_raises', 'canary.cause_never_adjusted'],
@@ -471,9 +469,7 @@ class CtxVar:
                   'invocation.invoke by contract: calls fn once with kwargs | kwargsrc\'s kwargs; returns its result or raises what it raises',
                   'invocation.context (real code, inlined) over contextvars by contract (CtxVar)',
                   'extra_context(): an async context manager; its exit may raise (subhandling_context: HandlerChildrenRetry, H8c)'],
-         clause_props={'adjusted_cause_used': ['C04'], 'invoked_once_as_given': ['C11', 'C02'], 'context_during_call': ['C02'],
-                       'context_at_extra_exit': ['C02'], 'context_restored': ['C02'], 'inside_extra_context': ['C02'],
-                       'result_returned': ['C02', 'C11'], 'exceptions_propagate_unchanged': ['C11', 'C02']})
+         clause_props={'adjusted_cause_used': ['C04', 'C08'], 'invoked_once_as_given': ['C11', 'C02', 'C20', 'C14'], 'context_during_call': ['C02'], 'context_at_extra_exit': ['C02'], 'context_restored': ['C02'], 'inside_extra_context': ['C02'], 'result_returned': ['C02', 'C11', 'C08'], 'exceptions_propagate_unchanged': ['C11', 'C02', 'C20']})
 def X4(vc):
     """
     execution.invoke_handler:
